@@ -17,49 +17,114 @@ _PRELUDE_SCALARS = ["UInt", "Int", "Flag", "Bcd", "Float"]
 
 
 class _Type:
-    def __init__(self, kind, name, nparams=0, members=(), values=(), size=1, param_kinds=()):
+    def __init__(self, kind, name, nparams=0, members=(), values=(), size=1, param_kinds=(), fixed=True):
         self.kind, self.name, self.nparams = kind, name, nparams  # kind: struct | bits | enum
-        self.members = list(members)  # [(field name, _Type or None)]
+        self.members = list(members)  # [(field name, field kind, _Type or None)]
         self.values = list(values)
-        self.size = size
-        self.param_kinds = list(param_kinds)
+        self.size = size              # bytes a field of this type occupies
+        self.param_kinds = list(param_kinds)  # "int" | ("enum", _Type)
+        self.fixed = fixed            # False when the size depends on the contents
 
 
 class _Soup:
-    def __init__(self, rng, flaw_rate):
+    """Field kinds: int (UInt/Int/Bcd up to 4 bytes), wide (8-byte integers: no arithmetic), bool, enum,
+    float, agg (struct/bits typed), array, other."""
+
+    def __init__(self, rng, flaw_sites):
         self.rng = rng
-        self.flaw = flaw_rate
+        self.flaw_sites = flaw_sites  # indices of the decision sites at which something is done wrong
+        self.site = 0
         self.used = []
+        self.abbrevs = set()
+        self.intended = None
+        self.root_sites = []
 
     def bad(self, scale=1.0):
-        return self.rng.random() < self.flaw * scale
+        """One decision site: is this the place where the program goes wrong?  (Sites are numbered in
+        generation order; the caller drew which of them are flawed, so a module has a few flaws spread
+        uniformly over its text instead of one per so-many sites.)"""
+        self.site += 1
+        return self.site in self.flaw_sites
+
+    def bad_root(self):
+        """A decision site at the root of a chain of dependent constructs (everything downstream has to
+        cope with the root being broken); remembered so that the caller can prefer such sites."""
+        self.root_sites.append(self.site + 1)
+        return self.bad()
 
     # -- names
     def typo(self, name):
+        """A misspelling of `name` in the same lexical class (so that the flaw is a name error, not a syntax error)."""
         r = self.rng.random()
-        if r < 0.4 and len(name) > 2:
-            i = self.rng.randrange(len(name) - 1)
-            return name[:i] + name[i + 1] + name[i] + name[i + 2:]
-        if r < 0.7:
-            return name + self.rng.choice(["x", "_1", "2"])
-        return self.rng.choice(["nope", "missing_name", "Nope", "NOPE", "this", "UInt", "x"])
+        shouty = name.isupper()
+        camel = name[:1].isupper() and not shouty
+        if r < 0.4 and len(name) > 3:
+            i = self.rng.randrange(1, len(name) - 1)
+            if name[i] != "_" and name[i + 1] != "_" and name[i].isupper() == name[i + 1].isupper() and name[i] != name[i + 1]:
+                return name[:i] + name[i + 1] + name[i] + name[i + 2:]
+        if r < 0.75:
+            return name + ("X" if (shouty or camel) else self.rng.choice(["x", "_1", "2"]))
+        if shouty:
+            return self.rng.choice(["NOPE", "MISSING_NAME"])
+        if camel:
+            return self.rng.choice(["Nope", "MissingName", "UInt"])
+        return self.rng.choice(["nope", "missing_name", "x"])
+
+    def name(self, n):
+        return self.typo(n) if self.bad() else n
+
+    # -- what can be referenced
+    def reachable(self, ctx, depth=3):
+        """[(path parts, kind, _Type)] of everything a reference may denote in this scope."""
+        out = []
+
+        def walk(prefix, kind, t, d):
+            out.append((prefix, kind, t))
+            if kind == "agg" and t is not None and d > 0:
+                for mn, mk, mt in t.members:
+                    walk(prefix + [mn], mk, mt, d - 1)
+
+        for fname, fkind, ft in ctx["fields"]:
+            walk([fname], fkind, ft, depth)
+        for pname, pkind, pt in ctx["params"]:
+            out.append(([pname], pkind, pt))
+        return out
+
+    def ref(self, ctx, want):
+        """Text of a reference of the wanted kind (int | bool | enum | any), or None when nothing fits."""
+        cands = [c for c in self.reachable(ctx) if want == "any" and c[1] != "param_only" or c[1] == want]
+        if want == "any":
+            cands = [c for c in cands if c[0][0] not in [p[0] for p in ctx["params"]]]  # $present / aliases take fields
+        if not cands:
+            return None
+        # prefer longer paths now and then: member access is where the interesting resolution happens
+        long = [c for c in cands if len(c[0]) > 1]
+        parts, kind, t = self.rng.choice(long if long and self.rng.random() < 0.5 else cands)
+        self.intended = (kind, t)
+        return ".".join(self.name(x) for x in parts)
 
     # -- expressions
     def int_expr(self, ctx, depth=0):
         rng = self.rng
-        if self.bad(0.5):
+        if self.bad():
             return self.bool_expr(ctx, depth + 1)
-        choices = ["const", "const", "ref", "ref"]
+        choices = ["const", "const", "ref", "ref", "ref"]
         if depth < 3:
-            choices += ["bin", "bin", "cond", "max", "bound"]
+            choices += ["add", "add", "mul", "cond", "max", "bound"]
         k = rng.choice(choices)
-        if k == "const":
-            return str(rng.choice([0, 1, 2, 3, 4, 7, 8, 16, 255, 256, 65535, -1, 0x7fff_ffff, 1 << 32, (1 << 63) - 1, (1 << 64) - 1])
-                       if rng.random() < 0.3 else rng.randint(0, 9))
         if k == "ref":
-            return self.ref(ctx, want="int")
-        if k == "bin":
-            return f"({self.int_expr(ctx, depth + 1)} {rng.choice(['+', '-', '*'])} {self.int_expr(ctx, depth + 1)})"
+            r = self.ref(ctx, "int")
+            if r is not None:
+                return r
+            k = "const"
+        if k == "const":
+            if self.bad():
+                return str(rng.choice([-1, 0x7fff_ffff, 1 << 32, (1 << 63) - 1, 1 << 63, (1 << 64) - 1, 1 << 64]))
+            return str(rng.choice([0, 1, 2, 3, 4, 7, 8, 16, 255, rng.randint(0, 9)]))
+        if k == "add":
+            return f"({self.int_expr(ctx, depth + 1)} {rng.choice(['+', '-'])} {self.int_expr(ctx, depth + 1)})"
+        if k == "mul":
+            return f"({self.int_expr(ctx, depth + 1)} * {rng.randint(0, 9)})"
         if k == "cond":
             return f"({self.bool_expr(ctx, depth + 1)} ? {self.int_expr(ctx, depth + 1)} : {self.int_expr(ctx, depth + 1)})"
         if k == "max":
@@ -68,140 +133,132 @@ class _Soup:
 
     def bool_expr(self, ctx, depth=0):
         rng = self.rng
-        if self.bad(0.5):
+        if self.bad():
             return self.int_expr(ctx, depth + 1)
-        choices = ["cmp", "cmp", "const", "present", "enumcmp", "flag"]
+        choices = ["cmp", "cmp", "const", "present", "enumcmp", "enumcmp", "flag", "flag"]
         if depth < 3:
             choices += ["and", "or"]
         k = rng.choice(choices)
+        if k == "flag":
+            r = self.ref(ctx, "bool")
+            if r is not None:
+                return r
+            k = "cmp"
+        if k == "present":
+            r = self.ref(ctx, "any")
+            if r is not None:
+                return f"$present({r})"
+            k = "const"
+        if k == "enumcmp":
+            r = self.ref(ctx, "enum")
+            if r is not None:
+                _kind, t = self.intended
+                v = self.enum_value(ctx, t)
+                if v is not None:
+                    return f"{r} {rng.choice(['==', '!='])} {v}"
+            k = "cmp"
         if k == "const":
             return rng.choice(["true", "false"])
         if k == "cmp":
             return f"{self.int_expr(ctx, depth + 1)} {rng.choice(['==', '!=', '<', '<=', '>', '>='])} {self.int_expr(ctx, depth + 1)}"
-        if k == "present":
-            return f"$present({self.ref(ctx, want='any')})"
-        if k == "flag":
-            return self.ref(ctx, want="bool")
-        if k == "enumcmp":
-            e = self.enum_value(ctx)
-            if e is not None:
-                return f"{self.ref(ctx, want='enum')} {rng.choice(['==', '!='])} {e}"
-            return rng.choice(["true", "false"])
         op = "&&" if k == "and" else "||"
         return f"({self.bool_expr(ctx, depth + 1)} {op} {self.bool_expr(ctx, depth + 1)})"
 
-    def enum_value(self, ctx):
-        enums = [t for t in ctx["visible_types"] if t[1].kind == "enum" and t[1].values]
+    def enum_value(self, ctx, t=None):
+        """A value of enum type t (or of any visible enum), qualified as seen from this module."""
+        enums = [x for x in ctx["visible_types"] if x[1].kind == "enum" and x[1].values and (t is None or x[1] is t)]
+        if self.bad():
+            enums = [x for x in ctx["visible_types"] if x[1].kind == "enum" and x[1].values]  # possibly another enum
         if not enums:
             return None
-        qual, t = self.rng.choice(enums)
-        v = self.rng.choice(t.values)
-        if self.bad():
-            v = self.typo(v)
-        return f"{qual}{t.name}.{v}"
-
-    def ref(self, ctx, want="int"):
-        """A reference to something in scope: a field, a member path, a parameter, an alias."""
-        rng = self.rng
-        fields = ctx["fields"]  # [(name, kind, _Type or None)]
-        cands = [f for f in fields if want == "any" or f[1] == want]
-        if ctx["params"] and want in ("int", "any") and rng.random() < 0.3:
-            n = rng.choice(ctx["params"])
-            return self.typo(n) if self.bad() else n
-        aggs = [f for f in fields if f[1] == "agg" and f[2] is not None and f[2].members]
-        if aggs and rng.random() < (0.6 if want == "any" else 0.35):
-            return self.path(ctx, rng.choice(aggs))
-        if not cands:
-            cands = fields
-        if not cands:
-            return rng.choice(["0", "nope"])
-        n = rng.choice(cands)[0]
-        return self.typo(n) if self.bad() else n
-
-    def path(self, ctx, agg, depth=0):
-        name, _k, t = agg
-        out = [name]
-        while t is not None and t.members and depth < 3:
-            mname, mt = self.rng.choice(t.members)
-            out.append(self.typo(mname) if self.bad() else mname)
-            t = mt
-            depth += 1
-            if self.rng.random() < 0.5:
-                break
-        # what the path was *meant* to denote, so that an alias of it can be chained through even
-        # when a member name in it is misspelt
-        self.intended = t
-        return ".".join(out)
+        qual, e = self.rng.choice(enums)
+        return f"{qual}{e.name}.{self.name(self.rng.choice(e.values))}"
 
     # -- type definitions
     def make_enum(self, name):
         rng = self.rng
         vals = []
         lines = [f"enum {name}:"]
+        mb = 64
         if rng.random() < 0.3:
-            lines.append(f"  [maximum_bits: {rng.choice([1, 7, 8, 16, 32, 64, 65] if self.bad(2) else [8, 16, 32])}]")
+            mb = rng.choice([0, 1, 7, 65] if self.bad() else [8, 16, 32, 64])
+            lines.append(f"  [maximum_bits: {mb}]")
         if rng.random() < 0.15:
             lines.append(f"  [is_signed: {rng.choice(['true', 'false'])}]")
         for i in range(rng.randint(1, 4)):
             v = W.shouty(rng, self.used)
-            vals.append(v)
             val = str(i + 1)
             if self.bad():
-                val = rng.choice(["-1", "256", "18446744073709551616", vals[0] + " + 1", "true", "1 + 1", self.typo(vals[0])])
-            elif rng.random() < 0.2 and i:
-                val = f"{vals[i - 1]} + {rng.randint(1, 3)}"
+                val = rng.choice(["-1", "256", "18446744073709551616", "true", "1 + true", self.typo(v), (vals[0] if vals else "1") + " + 1"])
+            elif rng.random() < 0.2:
+                val = f"{i} + {rng.randint(1, 3)} * 1"
+            vals.append(v)
             lines.append(f"  {v} = {val}")
-        return _Type("enum", name, values=vals), lines
+        return _Type("enum", name, values=vals, size=1 if mb <= 8 else rng.choice([1, 2])), lines
 
-    def type_use(self, ctx, allow_array=True):
-        """Returns (type text, size in bytes or None when the caller may choose, kind, _Type)."""
+    def scalar_use(self, ctx, in_bits=False):
+        """(type text, size in bytes/bits, kind)"""
         rng = self.rng
-        r = rng.random()
+        if in_bits:
+            k = rng.choice(["UInt", "UInt", "Int", "Flag", "Bcd"])
+            w = 1 if k == "Flag" else rng.choice([2, 3, 4, 4, 7, 8]) if k != "Bcd" else rng.choice([4, 8])
+            if self.bad():
+                w = rng.choice([0, 65, w + 1 if k == "Flag" else 0])
+            return k, w, "bool" if k == "Flag" else "int"
+        k = rng.choice(["UInt", "UInt", "Int", "Bcd", "Float"] if not self.bad() else ["Uint", "Int32", "Flag", "Nope"])
+        size = rng.choice([1, 1, 2, 4, 8])
+        if k == "Float":
+            size = rng.choice([4, 8] if not self.bad() else [2, 3])
+        txt = k
+        if rng.random() < 0.3:
+            txt += f":{size * 8 if not self.bad() else rng.choice([0, 7, 9, 65, size * 8 + 8])}"
+        kind = "float" if k == "Float" else ("int" if size <= 4 else "wide")
+        return txt, size, kind
+
+    def type_use(self, ctx):
+        """(type text, size in bytes, kind, _Type) of a struct field drawn among scalars, arrays and visible types."""
+        rng = self.rng
         vis = ctx["visible_types"]
-        if r < 0.45 or not vis:
-            k = rng.choice(_PRELUDE_SCALARS if not self.bad() else _PRELUDE_SCALARS + ["Uint", "Int32", "Nope"])
-            size = rng.choice([1, 2, 4, 8]) if k != "Flag" else 1
-            if k == "Float":
-                size = rng.choice([4, 8] if not self.bad() else [2, 3, 4])
-            txt = k
-            if rng.random() < 0.3:
-                bits = size * 8 if not self.bad(2) else rng.choice([0, 7, 9, 65, size * 8 + 8])
-                txt += f":{bits}"
-            kind = "bool" if k == "Flag" else "int"
-            if allow_array and rng.random() < 0.2:
-                esz = size
+        r = rng.random()
+        if r < 0.4 or not vis:
+            txt, size, kind = self.scalar_use(ctx)
+            if rng.random() < 0.2:
                 n = rng.randint(1, 4)
-                count = str(n) if rng.random() < 0.5 else ("" if rng.random() < 0.5 else self.int_expr(ctx, 2))
                 if ":" not in txt:
-                    txt += f":{esz * 8}"
-                return f"{txt}[{count}]", esz * n, "array", None
+                    txt += f":{size * 8}"
+                return f"{txt}[{n if rng.random() < 0.6 else ''}]", size * n, "array", None
             return txt, size, kind, None
-        qual, t = rng.choice(vis)
-        name = t.name if not self.bad() else self.typo(t.name)
-        txt = qual + name
+        deep = [x for x in vis if x[1].kind == "struct" and any(mk == "agg" for _n, mk, _t in x[1].members)]
+        qual, t = rng.choice(deep) if deep and rng.random() < 0.4 else rng.choice(vis)
+        txt = qual + self.name(t.name)
         if t.kind == "enum":
-            return txt, rng.choice([1, 2]), "enum", t
+            return txt, t.size, "enum", t
         nargs = t.nparams
-        if self.bad(2):
+        if self.bad():
             nargs = max(0, nargs + rng.choice([-1, 1]))
-        if nargs or (t.nparams and rng.random() < 0.5):
+        if nargs:
             args = []
             for i in range(nargs):
                 pk = t.param_kinds[i] if i < len(t.param_kinds) else "int"
-                if pk == "enum" and not self.bad(2):
-                    args.append(self.enum_value(ctx) or "0")
+                if isinstance(pk, tuple) and not self.bad():
+                    args.append(self.enum_value(ctx, pk[1]) or "0")
+                elif self.bad():
+                    args.append(rng.choice(["true", self.enum_value(ctx) or "false", self.ref(ctx, "any") or "true"]))
                 else:
                     args.append(self.int_expr(ctx, 2))
             txt += "(" + ", ".join(args) + ")"
-        size = t.size if not self.bad() else t.size + rng.choice([-1, 1])
-        if allow_array and rng.random() < 0.15:
+        elif t.nparams == 0 and self.bad():
+            txt += "(1)"
+        size = t.size if not self.bad() else max(0, t.size + rng.choice([-1, 1]))
+        if t.fixed and rng.random() < 0.15:
             n = rng.randint(1, 3)
-            return f"{txt}[{n if rng.random() < 0.6 else ''}]", max(0, size) * n, "array", None
-        return txt, max(0, size), "agg", t
+            return f"{txt}[{n if rng.random() < 0.6 else ''}]", size * n, "array", None
+        return txt, size, "agg", t
 
     def make_struct(self, name, ctx_types, kind="struct"):
         rng = self.rng
-        params = []
+        params = []  # (name, kind, _Type)
+        param_texts = []
         param_kinds = []
         if kind == "struct" and rng.random() < 0.35:
             for _ in range(rng.randint(1, 2)):
@@ -209,116 +266,171 @@ class _Soup:
                 enums = [t for t in ctx_types if t[1].kind == "enum"]
                 if enums and rng.random() < 0.3:
                     q, e = rng.choice(enums)
-                    params.append(f"{pn}: {q}{e.name}")
-                    param_kinds.append("enum")
+                    param_texts.append(f"{pn}: {q}{self.name(e.name)}")
+                    param_kinds.append(("enum", e))
+                    params.append((pn, "enum", e))
                 else:
-                    params.append(f"{pn}: {rng.choice(['UInt', 'Int'])}:{rng.choice([4, 8, 16, 32] if not self.bad() else [0, 65, 8])}")
+                    param_texts.append(f"{pn}: {rng.choice(['UInt', 'Int'])}:{rng.choice([4, 8, 16, 32] if not self.bad() else [0, 65, 300])}")
                     param_kinds.append("int")
-                params[-1] = (pn, params[-1])
-        header = f"{kind} {name}" + ("(" + ", ".join(p[1] for p in params) + ")" if params else "") + ":"
-        lines = [header]
-        ctx = {"fields": [], "params": [p[0] for p in params], "visible_types": ctx_types}
-        if rng.random() < 0.15:
-            lines.append(f'  [$default byte_order: "{rng.choice(["LittleEndian", "BigEndian", "Null"] if not self.bad(2) else ["Middle"])}"]')
+                    params.append((pn, "int", None))
+        lines = [f"{kind} {name}" + ("(" + ", ".join(param_texts) + ")" if params else "") + ":"]
+        ctx = {"fields": [], "params": params, "visible_types": ctx_types}
+        if kind == "struct" and rng.random() < 0.15:
+            lines.append(f'  [$default byte_order: "{rng.choice(["LittleEndian", "BigEndian"] if not self.bad() else ["Middle", "Null"])}"]')
         members = []
         off = 0
-        dynamic = False
-        unit = 1
+        fixed = True
+        physical = 0
         for _ in range(rng.randint(1, 7)):
             r = rng.random()
             indent = "  "
+            conditional = False
             if r < 0.2 and ctx["fields"]:
                 lines.append(f"  if {self.bool_expr(ctx)}:")
                 indent = "    "
+                conditional = True
             if r > 0.75 and ctx["fields"]:
-                # virtual field: arithmetic, or an alias (possibly of an aggregate or of an earlier alias)
+                # virtual field: an expression, or an alias (possibly of an aggregate or of an earlier alias)
                 vn = W.snake(rng, self.used)
                 if rng.random() < 0.5:
-                    self.intended = "unset"
-                    target = self.ref(ctx, want="any")
+                    target = self.ref(ctx, "any")
+                    vk, vt = self.intended
+                    if vk in ("array", "float", "other", "wide") and not self.bad():
+                        vk, vt, target = "int", None, self.int_expr(ctx, 1)
                     lines.append(f"{indent}let {vn} = {target}")
-                    # what the alias denotes, so that later aliases can chain through it
-                    if self.intended != "unset":
-                        t = self.intended
-                    else:
-                        t = None
-                        for f in ctx["fields"]:
-                            if f[0] == target:
-                                t = f[2]
-                    ctx["fields"].append((vn, "agg" if t is not None else "int", t))
-                    members.append((vn, t))
+                elif rng.random() < 0.7:
+                    vk, vt = "int", None
+                    lines.append(f"{indent}let {vn} = {self.int_expr(ctx)}")
                 else:
-                    e = self.int_expr(ctx) if rng.random() < 0.7 else self.bool_expr(ctx)
-                    lines.append(f"{indent}let {vn} = {e}")
-                    ctx["fields"].append((vn, "int", None))
-                    members.append((vn, None))
-                if rng.random() < 0.2:
-                    lines.append(f"{indent}  [requires: {self.bool_expr(dict(ctx, fields=[('this', 'int', None)]))}]")
+                    vk, vt = "bool", None
+                    lines.append(f"{indent}let {vn} = {self.bool_expr(ctx)}")
+                if vk == "int" and rng.random() < 0.2:
+                    lines.append(f"{indent}  [requires: {self.bool_expr(dict(ctx, fields=[('this', 'int', None)], params=[]))}]")
+                ctx["fields"].append((vn, vk, vt))
+                members.append((vn, vk, vt))
                 continue
+            if conditional:
+                fixed = False
             if kind == "bits":
-                w = rng.choice([1, 2, 3, 4, 8])
-                tk = rng.choice(["UInt", "Int", "Flag"]) if w > 1 else rng.choice(["UInt", "Flag"])
-                if tk == "Flag":
-                    w = 1 if not self.bad(2) else 2
+                if off >= 56:
+                    continue
+                txt, w, fk = self.scalar_use(ctx, in_bits=True)
                 fn = W.snake(rng, self.used)
-                lines.append(f"{indent}{off} [+{w}]  {tk}  {fn}")
-                ctx["fields"].append((fn, "bool" if tk == "Flag" else "int", None))
-                members.append((fn, None))
-                off += w
+                lines.append(f"{indent}{off} [+{w}]  {txt}  {fn}")
+                ctx["fields"].append((fn, fk, None))
+                members.append((fn, fk, None))
+                off += max(w, 0)
+                physical += 1
                 continue
+            fn = W.snake(rng, self.used)
+            if self.bad() and ctx["fields"]:
+                fn = ctx["fields"][0][0]  # duplicate name
+            start = str(off) if fixed or physical == 0 else rng.choice(["$next", "$next", str(off)])
+            if self.bad():
+                start = rng.choice(["$next" if physical == 0 else "-1", "true", self.ref(ctx, "any") or "-1"])
             if rng.random() < 0.15:
                 # anonymous bits
                 nb = rng.choice([1, 2, 4])
-                start = str(off) if not dynamic else "$next"
                 lines.append(f"{indent}{start} [+{nb}]  bits:")
                 bit = 0
                 for _k in range(rng.randint(1, 3)):
-                    w = rng.randint(1, 5)
-                    fn = W.snake(rng, self.used)
-                    tk = rng.choice(["UInt", "Int", "Flag"])
-                    if tk == "Flag":
-                        w = 1
-                    lines.append(f"{indent}  {bit} [+{w}]  {tk}  {fn}")
-                    ctx["fields"].append((fn, "bool" if tk == "Flag" else "int", None))
-                    members.append((fn, None))
-                    bit += w
+                    txt, w, fk = self.scalar_use(ctx, in_bits=True)
+                    if bit + max(w, 0) > nb * 8 and not self.bad():
+                        break
+                    mn = W.snake(rng, self.used)
+                    lines.append(f"{indent}  {bit} [+{w}]  {txt}  {mn}")
+                    ctx["fields"].append((mn, fk, None))
+                    members.append((mn, fk, None))
+                    bit += max(w, 0)
+                if bit == 0:
+                    lines.append(f"{indent}  0 [+1]  UInt  {W.snake(rng, self.used)}")
                 off += nb
+                physical += 1
                 continue
             txt, size, fk, t = self.type_use(ctx)
-            fn = W.snake(rng, self.used)
-            if self.bad(0.5) and ctx["fields"]:
-                fn = ctx["fields"][0][0]  # duplicate name
-            start = str(off) if not dynamic else rng.choice(["$next", "$next", self.int_expr(ctx, 2)])
-            if rng.random() < 0.12 and ctx["fields"]:
-                start = self.int_expr(ctx, 2)
             size_txt = str(size)
-            if fk == "array" and rng.random() < 0.5 and ctx["fields"]:
-                size_txt = self.int_expr(ctx, 2)
-                dynamic = True
+            if fk == "array" and txt.endswith("[]") and rng.random() < 0.6:
+                r2 = self.ref(ctx, "int")
+                if r2 is not None and ":8[" in txt:
+                    size_txt = r2
+                    fixed = False
+            if fk == "agg" and t is not None and not t.fixed:
+                fixed = False
             if self.bad():
-                size_txt = rng.choice(["0", "-1", str(size + 1), "true", self.int_expr(ctx, 2)])
-            abbrev = f" ({fn[:2]})" if rng.random() < 0.1 else ""
+                size_txt = rng.choice(["0", "-1", str(size + 1), "true", "18446744073709551616", self.int_expr(ctx, 2)])
+            abbrev = ""
+            if rng.random() < 0.1 and fn[:2] not in self.abbrevs and fn[:2] not in self.used and len(fn) > 3:
+                self.abbrevs.add(fn[:2])
+                abbrev = f" ({fn[:2]})"
             lines.append(f"{indent}{start} [+{size_txt}]  {txt}  {fn}{abbrev}")
-            if rng.random() < 0.15:
-                attr = rng.choice(['[byte_order: "BigEndian"]', '[byte_order: "LittleEndian"]', '[text_output: "Skip"]',
-                                   "[requires: this < 100]", "[requires: this != 0 && this <= 7]"]
-                                  if not self.bad(2) else ['[byte_order: "Null"]', "[requires: this]", "[requires: 1]", "[fixed_size_in_bits: 8]",
-                                                           '[(cpp) namespace: "x"]', "[requires: this == " + self.ref(ctx, "enum") + "]"])
+            if rng.random() < 0.2:
+                good = ['[text_output: "Skip"]', '[text_output: "Emit"]']
+                if fk in ("int", "wide") and size > 1 or fk == "float":
+                    good += ['[byte_order: "BigEndian"]', '[byte_order: "LittleEndian"]']
+                if fk == "int":
+                    good += ["[requires: this < 100]", "[requires: this != 0 && this <= 7]"]
+                attr = rng.choice(good if not self.bad() else ['[byte_order: "Null"]', "[requires: this]", "[requires: 1]", "[fixed_size_in_bits: 8]",
+                                                               '[(cpp) namespace: "x"]', '[requires: "no"]', "[is_signed: true]", "[requires: this == 1]\n" + indent + "  [requires: this == 2]"])
                 lines.append(f"{indent}  {attr}")
             ctx["fields"].append((fn, fk, t))
-            members.append((fn, t))
+            members.append((fn, fk, t))
             if abbrev:
                 ctx["fields"].append((fn[:2], fk, t))
             off += size
+            physical += 1
+        if kind == "bits":
+            # a bits type occupies whole bytes when it is used in a struct
+            pad = (-off) % 8
+            if pad or off == 0:
+                lines.append(f"  {off} [+{pad or 8}]  UInt  {W.snake(rng, self.used)}")
+                off += pad or 8
+        elif physical == 0:
+            lines.append(f"  0 [+1]  UInt  {W.snake(rng, self.used)}")
+            off = 1
+        # a chain of aliases, each reaching through the previous one (a misspelt link anywhere in it)
+        aggs = [f for f in ctx["fields"] if f[1] == "agg" and f[2] is not None and f[2].members]
+        if aggs and rng.random() < 0.7:
+            deep = [f for f in aggs if any(mk == "agg" for _n, mk, _t in f[2].members)]
+            cur_name, _k, cur_t = rng.choice(deep or aggs)
+            for _link in range(rng.randint(2, 5)):
+                if cur_t is None or not cur_t.members:
+                    break
+                mname, mk, mt = rng.choice([x for x in cur_t.members if x[1] == "agg" and x[2] is not None and x[2].members]
+                                           or [x for x in cur_t.members if x[1] in ("int", "bool", "enum", "agg")] or cur_t.members)
+                vn = W.snake(rng, self.used)
+                first = _link == 0
+                lines.append(f"  let {vn} = {cur_name}.{(self.typo(mname) if self.bad_root() else mname) if first else self.name(mname)}")
+                ctx["fields"].append((vn, mk, mt))
+                members.append((vn, mk, mt))
+                if mk != "agg":
+                    break
+                cur_name, cur_t = vn, mt
         if rng.random() < 0.1:
             lines.insert(1, f"  [requires: {self.bool_expr(ctx)}]")
-        return _Type(kind, name, nparams=len(params), members=members, size=max(1, off if kind == "struct" else (off + 7) // 8),
-                     param_kinds=param_kinds), lines
+        return _Type(kind, name, nparams=len(params), members=members, size=max(1, off if kind == "struct" else off // 8),
+                     param_kinds=param_kinds, fixed=fixed), lines
 
 
 def semantic_soup(rng):
     """(files, entry, tags): 1-3 modules, mostly right, wrong at a few drawn sites."""
-    s = _Soup(rng, rng.choice([0.0, 0.03, 0.06, 0.12]))
+    import random as _random
+
+    # first pass without flaws, to learn how many decision sites this module has
+    state = rng.getstate()
+    probe = _Soup(_random.Random(), set())
+    probe.rng.setstate(state)
+    _soup_files(probe, probe.rng)
+    n_flaws = rng.choice([0, 1, 1, 1, 2, 2, 3, 5])
+    sites = set(rng.sample(range(1, probe.site + 1), min(n_flaws, probe.site)))
+    if n_flaws and probe.root_sites and rng.random() < 0.5:
+        sites.add(rng.choice(probe.root_sites))  # break the root of a chain: everything downstream must cope
+    s = _Soup(_random.Random(), sites)
+    s.rng.setstate(state)
+    files = _soup_files(s, s.rng)
+    return files, "m.emb", ["semantic_soup", f"flaws_{len(sites)}"]
+
+
+def _soup_files(s, rng):
     nlibs = rng.choice([0, 1, 1, 2])
     files = {}
     lib_types = []  # (file name, alias, [types])
@@ -348,7 +460,7 @@ def semantic_soup(rng):
     head.append(W._hdr(rng).rstrip("\n"))
     body, _types = _soup_types(s, rng, vis, rng.randint(1, 4))
     files["m.emb"] = "\n".join(head + body) + "\n"
-    return files, "m.emb", ["semantic_soup", f"flaw_rate_{s.flaw}"]
+    return files
 
 
 def _soup_types(s, rng, imported, n):
